@@ -184,7 +184,16 @@ def dom_dim(d):
 
 def gen_step(rng, U):
     k = rng.choice(['tgrad', 'tgrad', 'tvec', 'form', 'logical', 'symbolic', 'idxder', 'hodge', 'union', 'join', 'comm',
-                    'equation', 'mapped'])
+                    'equation', 'mapped', 'chain', 'chain'])
+    if k == 'chain':
+        # chains of coordinate operators sharing inner derivatives (added after seed C12-2)
+        d = U.dom(shape='abs')
+        sp = U.space(False, d)
+        dim = dom_dim(d)
+        fam = rng.choice([['dx1', 'dx2', 'dx3'], ['dx1', 'dx2', 'dx3'], ['dx', 'dy', 'dz']])[:dim]
+        inner = rng.choice(fam)
+        ops = [inner] + [rng.choice(fam) for _ in range(rng.choice([1, 1, 2]))]
+        return {'r': k, 'p': {'dom': d, 'sp': sp, 'fn': U.fn(False, sp, d), 'ops': ops}}
     if k == 'tgrad':
         d = U.dom()
         sp = U.space(False, d)
@@ -563,6 +572,11 @@ def check_order(o, farm, st, rng):
 
 FIXED = [
     # (key expected on the pre-fix tree, history, final, mode)
+    ('history-leak', [{'r': 'chain', 'p': {'dom': ['abs', 'Omega', 2], 'sp': ['S', 'V', None], 'fn': 'u', 'ops': ['dx2', 'dx1']}}],
+     {'r': 'chain', 'p': {'dom': ['abs', 'Omega', 2], 'sp': ['S', 'V', None], 'fn': 'u', 'ops': ['dx2', 'dx2']}}, 'same'),
+    ('history-leak', [{'r': 'chain', 'p': {'dom': ['abs', 'Omega', 3], 'sp': ['S', 'V', None], 'fn': 'u', 'ops': ['dx3', 'dx1']}},
+                      {'r': 'chain', 'p': {'dom': ['abs', 'Omega', 3], 'sp': ['S', 'V', None], 'fn': 'u', 'ops': ['dx3', 'dx2', 'dx1']}}],
+     {'r': 'chain', 'p': {'dom': ['abs', 'Omega', 3], 'sp': ['S', 'V', None], 'fn': 'u', 'ops': ['dx3', 'dx3']}}, 'same'),
     ('name-reuse:domain', [{'r': 'tgrad', 'p': {'dom': ['abs', 'Omega', 2], 'sp': ['S', 'V', None], 'fn': 'u', 'op': 'grad'}}],
      {'r': 'tgrad', 'p': {'dom': ['abs', 'Omega', 3], 'sp': ['S', 'V', None], 'fn': 'u', 'op': 'grad'}}, 'reuse'),
     ('name-reuse:form', [{'r': 'hodge', 'p': {'name': 'v1', 'k': 1, 'n': 2}}], {'r': 'hodge', 'p': {'name': 'v1', 'k': 1, 'n': 3}}, 'reuse'),
